@@ -28,12 +28,25 @@ func BuildAnnotation(ctx *parser.AnnotationContext) core_domain.CodeAnnotation {
 }
 
 func BuildAnnotationForMethod(context *parser.ModifierContext, method *core_domain.CodeFunction) {
-	if context.ClassOrInterfaceModifier() != nil {
-		if reflect.TypeOf(context.ClassOrInterfaceModifier().GetChild(0)).String() == "*parser.AnnotationContext" {
-			annotationCtx := context.ClassOrInterfaceModifier().GetChild(0).(*parser.AnnotationContext)
+	// context is the first modifier of the member; its following siblings carry the other annotations
+	var modifiers = []*parser.ModifierContext{context}
+	if parent := context.GetParent(); parent != nil {
+		modifiers = nil
+		for _, child := range parent.GetChildren() {
+			if modifier, ok := child.(*parser.ModifierContext); ok {
+				modifiers = append(modifiers, modifier)
+			}
+		}
+	}
 
-			annotation := BuildAnnotation(annotationCtx)
-			method.Annotations = append(method.Annotations, annotation)
+	for _, modifier := range modifiers {
+		if modifier.ClassOrInterfaceModifier() != nil {
+			if reflect.TypeOf(modifier.ClassOrInterfaceModifier().GetChild(0)).String() == "*parser.AnnotationContext" {
+				annotationCtx := modifier.ClassOrInterfaceModifier().GetChild(0).(*parser.AnnotationContext)
+
+				annotation := BuildAnnotation(annotationCtx)
+				method.Annotations = append(method.Annotations, annotation)
+			}
 		}
 	}
 }
